@@ -143,6 +143,7 @@ func (s *Stream) readMore(minSize int) (err error) {
 		return ErrEndOfStream
 	}
 
+	vpo(vpReadMoreBeforeWait, s, 0)
 	var timeoutCh <-chan time.Time
 	deadline := s.readDeadline
 	if !deadline.IsZero() {
@@ -206,6 +207,7 @@ func (s *Stream) Flush(endStream bool) error {
 		s.sendBuf.recycle()
 		return ErrStreamClosed
 	}
+	vpo(vpFlushStateChecked, s, 0)
 	s.sendBuf.done(endStream)
 	defer s.sendBuf.clean()
 	// Once we send data using uds, for this stream we will always use uds later to avoid unordering
@@ -250,6 +252,7 @@ func (s *Stream) Flush(endStream bool) error {
 		buf.recycle()
 		return err
 	}
+	vpo(vpFlushPut, s, 0)
 	return s.session.wakeUpPeer()
 }
 
@@ -267,12 +270,14 @@ func (s *Stream) writeFallback(streamStatus uint32, err error) error {
 	s.sendBuf.recycle()
 	s.session.openCircuitBreaker()
 	atomic.AddUint64(&s.session.stats.fallbackWriteCount, 1)
+	vpo(vpFallbackBeforeSend, s, 0)
 	return s.session.waitForSend(nil, data)
 }
 
 // Close used to close the stream, which maybe block if there is StreamCallbacks running.
 // if a stream was leaked, it's also mean that some share memory was leaked.
 func (s *Stream) Close() error {
+	vpo(vpStreamCloseEnter, s, 0)
 	if s.getCallbacks() != nil {
 		atomic.StoreUint32(&s.callbackCloseState, uint32(callbackWaitExit))
 	}
@@ -293,6 +298,7 @@ func (s *Stream) close() error {
 	}
 
 	if atomic.CompareAndSwapUint32(&s.state, oldState, uint32(streamClosed)) {
+		vpo(vpStreamCloseCASed, s, int64(oldState))
 		if s.getCallbacks() != nil {
 			s.asyncGoroutineWg.Wait()
 		}
@@ -310,6 +316,7 @@ func (s *Stream) close() error {
 			if s.session.IsClosed() {
 				return nil
 			}
+			vpo(vpStreamCloseBeforeNotify, s, 0)
 			// notify peer
 			err := s.session.sendQueue().put(queueElement{seqID: s.id, status: uint32(streamClosed)})
 			if err != nil {
@@ -335,6 +342,7 @@ func (s *Stream) clean() {
 
 func (s *Stream) halfClose() {
 	if atomic.CompareAndSwapUint32(&s.state, uint32(streamOpened), uint32(streamHalfClosed)) {
+		vpo(vpHalfClosed, s, 0)
 		s.safeCloseNotify()
 		callback := s.getCallbacks()
 		if callback != nil {
@@ -387,16 +395,19 @@ func (s *Stream) ReleaseReadAndReuse() {
 // fillDataToReadBuffer is used to handle a data frame
 func (s *Stream) fillDataToReadBuffer(buf bufferSliceWrapper) error {
 	s.pendingData.add(buf)
+	vpo(vpFillAdded, s, 0)
 	//stream had closed, which maybe closed by user due to timeout.
 	if s.getStreamState() == uint32(streamClosed) {
 		s.pendingData.clear()
 		s.recvBuf.recycle()
 		return nil
 	}
+	vpo(vpFillBeforeNotify, s, 0)
 	// Unblock any readers
 	asyncNotify(s.recvNotifyCh)
 	callback := s.getCallbacks()
 	if callback != nil {
+		vpo(vpFillBeforeCbCAS, s, 0)
 		// callback OnData maybe block, make sure OnData called once and chan recvNotifyCh be notified
 		if atomic.CompareAndSwapUint32(&s.callbackInProcess, 0, 1) {
 			s.asyncGoroutineWg.Add(1)
@@ -408,13 +419,16 @@ func (s *Stream) fillDataToReadBuffer(buf bufferSliceWrapper) error {
 						s.pendingData.moveTo(s.recvBuf)
 					}
 
+					vpo(vpCbBeforeStore0, s, 0)
 					atomic.StoreUint32(&s.callbackInProcess, 0)
+					vpo(vpCbAfterStore0, s, 0)
 					if atomic.LoadUint32(&s.callbackCloseState) == uint32(callbackWaitExit) {
 						s.asyncGoroutineWg.Done()
 						s.close()
 						return
 					}
 
+					vpo(vpCbBeforeRecheck, s, 0)
 					if !(len(s.pendingData.unread) > 0 && atomic.CompareAndSwapUint32(&s.callbackInProcess, 0, 1)) {
 						break
 					}
